@@ -33,8 +33,8 @@ def run(prog, rep):
     rep.expect_min("C13.formula", 4)
     rep.expect_min("C13.norm", 1)
     rep.expect_min("C13.weights", 7)
-    rep.expect_min("C13.delta", 3)
-    rep.expect_min("C13.order", 3)
+    rep.expect_min("C13.delta", 4)
+    rep.expect_min("C13.order", 2)
 
 
 def filtered(name, keyname="x"):
@@ -72,7 +72,7 @@ def estimator(prog, rep):
     q = f"{EW}._estimate_alpha_beta"
     fn = prog.func(q)
     rep.analysed(fn)
-    b = builder(prog, fn, inline=False)
+    b = builder(prog, fn, inline=True)
     ret = [s for s in cfg_of(fn).all_stmts() if isinstance(s, ast.Return)]
     if len(ret) != 1:
         raise AnalysisError(f"{q}: expected one return")
@@ -151,7 +151,7 @@ def wlsq_error(prog, rep):
     q = f"{EW}._wlsq_error"
     fn = prog.func(q)
     rep.analysed(fn)
-    b = builder(prog, fn, inline=False)
+    b = builder(prog, fn, inline=True, no_inline=("_estimate_alpha_beta",))
     ret = [s for s in cfg_of(fn).all_stmts() if isinstance(s, ast.Return)]
     t = abstract(b.term(ret[-1].value, ret[-1]))
     site = fn.where(ret[-1])
@@ -224,8 +224,8 @@ def fit_lsq(prog, rep):
                 calls.append(("est", st, inner, t))
             if inner[0] == "call" and inner[1] == G("scipy.optimize.fmin"):
                 calls.append(("fmin", st, inner, t))
-    if len([c for c in calls if c[0] == "est"]) < 2 or not [c for c in calls if c[0] == "fmin"]:
-        raise AnalysisError(f"{q}: expected two _estimate_alpha_beta calls and one fmin call")
+    if len([c for c in calls if c[0] == "est"]) < 1 or not [c for c in calls if c[0] == "fmin"]:
+        raise AnalysisError(f"{q}: expected _estimate_alpha_beta call(s) and one fmin call")
     triples = []
     for kind, st, c, full in calls:
         if kind == "est":
@@ -252,7 +252,7 @@ def fit_lsq(prog, rep):
         if kind == "est":
             tg = st.targets[0]
             ok = c[2][0] == ("attr", SELF, "delta") and isinstance(tg, ast.Tuple) and [getattr(e, "attr", None) for e in tg.elts] == ["alpha", "beta"]
-            rep.check(ok, "C13.delta", f"{q}:estimate@{'fixed' if any(l[0]=='cmp' and l[1]=='in' for l in pcs.of(st)) else 'free'}", fn.where(st),
+            rep.check(ok, "C13.delta", f"{q}:estimate#{[c_[1] for c_ in calls if c_[0] == 'est'].index(st)}", fn.where(st),
                       "self.alpha, self.beta = _estimate_alpha_beta(self.delta, x, p, w)",
                       "alpha and beta (in this order) must be estimated for the delta in force (self.delta)")
     # plotting positions on the ascending sample
@@ -268,7 +268,7 @@ def fit_lsq(prog, rep):
     at = calls[0][1]
     wname = None
     for kind, st, c, full in calls:
-        if kind == "est" and isinstance(st.value.args[3], ast.Name):
+        if kind == "est" and len(st.value.args) > 3 and isinstance(st.value.args[3], ast.Name):
             wname = st.value.args[3].id
     defs = rd.reaching(wname, at) if wname else []
     # an unconditional renormalisation ``w = w / np.sum(w)`` after the branch ladder is behaviour preserving: look through it
